@@ -644,6 +644,14 @@ def check_search(m, f, schema, res_wl, res_bound):
         res_wl.ok(dict(function=disp, schema=schema, check='init-source', source=show(src, f.unit)), fn=disp)
     else:
         fail(res_wl, 'init-source', f.body, why)
+    if marker[0] == 'mark' and schema in ('S-BFS', 'S-BFS-ALL'):
+        # insert-once counts on the source too: unmarked while it is scanned, a self-loop (or any cycle back) queues it again
+        res_bound.sites += 1
+        if why == 'the source is not marked before the loop' and not ok:
+            fail(res_bound, 'init-source', f.body, 'the source is not marked before the loop: an edge back to it (a self-loop) inserts it '
+                                                   'a second time, so it is scanned twice - more than once per vertex')
+        else:
+            res_bound.ok(dict(function=disp, schema=schema, check='source marked before the loop'), fn=disp)
     # ---- worklist discipline: FIFO for the BFS schemas
     if schema in ('S-BFS', 'S-BFS-ALL'):
         res_wl.sites += 1
@@ -964,6 +972,21 @@ def check_priority_queue(m, f, res):
             continue
         for d in n['decls']:
             ct = u.decl(d).get('ctype', '')
+            if ct.startswith(('std::map<double,', 'std::map<float,', 'std::map<long double,', 'std::set<double', 'std::unordered_map<double,')):
+                # an associative container with unique keys used as the queue of (distance -> vertex): a second vertex with
+                # the same tentative distance is not stored
+                tt = Terms(f)
+                used = any(x['k'] == 'WhileStmt' and any(st[0] == 'mcall' and st[1].endswith('::empty') and st[2] == ('var', d)
+                                                         for st in subterms(tt.t(x['cond']))) for x in f.nodes if x.get('cond', -1) >= 0)
+                if used:
+                    for r_ in [res] + ([res.top] if getattr(res, 'top', None) is not None else []):
+                        r_.sites += 1
+                        r_.fail(Finding(r_.rule, f.display(), 'worklist with unique keys', f.nloc(n['i']),
+                                        '`%s` (%s) is the worklist of the search, keyed by tentative distance: keys are unique, so a '
+                                        'vertex whose distance equals that of an entry still queued is not inserted (emplace / insert do '
+                                        'not overwrite) and is never expanded - vertices behind it keep +infinity'
+                                        % (u.decl(d)['name'], ct.split('<')[0] + '<' + ct.split('<')[1].split(',')[0] + ', ...>')))
+                continue
             if not ct.startswith('std::priority_queue<'):
                 continue
             res.sites += 1
